@@ -464,6 +464,11 @@ fn next_forced(id: usize) -> u16 {
 
 /// What a scripted child does when it stays pending.
 fn pending_side_effects(id: usize, cx: &Context<'_>) {
+    if w().opts == 0 {
+        // quiet children: no wake-ups from inside a poll (concrete test, so that the wake
+        // code below is not even explored)
+        return;
+    }
     let d = any_u8() & (w().opts | 0xfc);
     if d & 1 != 0 {
         // wake myself from inside my own poll
